@@ -204,6 +204,21 @@ namespace
         }
     };
 
+
+    struct VSum3
+    {
+        static constexpr auto name = "v_sum3";
+        static void eval(Scalar<"id", Int> id, In<"a", TS<Int>> a, In<"b", TS<Int>> b, In<"c", TS<Int>> c, NodeView self, DateTime now,
+                         Out<TS<Int>> out)
+        {
+            FnLog log(id.value(), self, now);
+            log.ins({in_rec(a), in_rec(b), in_rec(c)});
+            const long v = static_cast<long>(a.value()) + static_cast<long>(b.value()) + static_cast<long>(c.value());
+            out.set(Int{v});
+            log.out(v).emit();
+        }
+    };
+
     // rhs validity unchecked: runs as soon as lhs is valid and either ticks
     struct VSumU
     {
@@ -956,6 +971,7 @@ namespace
             else if (kind == "sum2") { env.ports.emplace(id, wire<VSum2>(w, sid, in.at(0), in.at(1))); }
             else if (kind == "lsum") { env.ports.emplace(id, wire<VLSum>(w, sid, {in.at(0).erased(), in.at(1).erased()})); }
             else if (kind == "lsumv") { env.ports.emplace(id, wire<VLSumV>(w, sid, {in.at(0).erased(), in.at(1).erased()})); }
+            else if (kind == "sum3") { env.ports.emplace(id, wire<VSum3>(w, sid, in.at(0), in.at(1), in.at(2))); }
             else if (kind == "sumu") { env.ports.emplace(id, wire<VSumU>(w, sid, in.at(0), in.at(1))); }
             else if (kind == "sample") { env.ports.emplace(id, wire<VSample>(w, sid, in.at(0), in.at(1))); }
             else if (kind == "acc") { env.ports.emplace(id, wire<VAcc>(w, sid, in.at(0))); }
